@@ -341,6 +341,12 @@ func outcomeOf(pj *simdjson.ParsedJson, err error) parseOutcome {
 // pipeExec runs the given parses (each reusing the previous successful result if reuse is set) inside one
 // bubble under policy pol. It returns one outcome per parse and whether the run got stuck.
 func pipeExec(r *Run, docs [][]byte, cfgs []parseCfg, reuse bool, pol *pipePolicy, polName string) (outs []parseOutcome, stuck bool) {
+	return pipeExecJudge(r, docs, cfgs, reuse, pol, polName, nil)
+}
+
+// pipeExecJudge is pipeExec with a callback invoked on the calling goroutine right after each parse,
+// while that parse's result has not yet been reused by the next one.
+func pipeExecJudge(r *Run, docs [][]byte, cfgs []parseCfg, reuse bool, pol *pipePolicy, polName string, after func(i int, o parseOutcome)) (outs []parseOutcome, stuck bool) {
 	totalLen := 0
 	for _, d := range docs {
 		totalLen += len(d)
@@ -364,6 +370,9 @@ func pipeExec(r *Run, docs [][]byte, cfgs []parseCfg, reuse bool, pol *pipePolic
 			}
 			if o.ok {
 				prev = o.pj
+			}
+			if after != nil {
+				after(i, o)
 			}
 			outs = append(outs, o)
 			newCall()
@@ -641,12 +650,54 @@ func RunPipe(r *Run) {
 		refs[i] = refFor(d, cfgs[i].ND)
 	}
 
-	// free-running execution (real scheduler, no hooks parked): the baseline outcome
+	async := false
+	for _, d := range docs {
+		if len(bytes.TrimSpace(d)) > 8<<10 {
+			async = true
+		}
+	}
+	r.Res.NonTrivial = async
+	// K executions under drawn schedules; the first one is judged against the reference model in full
+	var first []parseOutcome
+	for k := 0; k < K; k++ {
+		kind := c.Intn("policy", polCount)
+		pol := newPipePolicy(c, kind, len(doc)/300+8)
+		r.stat("policy_"+polNames[kind], 1)
+		r.trace("schedule %d policy %s", k, polNames[kind])
+		var after func(i int, o parseOutcome)
+		if k == 0 {
+			after = func(i int, o parseOutcome) {
+				judgeOutcome(r, docs[i], cfgs[i], o, refs[i], fmt.Sprintf("parse #%d (%s) under policy %s", i, cfgs[i], polNames[kind]), len(docs[i]) <= 1<<18)
+			}
+		}
+		outs, stuck := pipeExecJudge(r, docs, cfgs, reuse, pol, polNames[kind], after)
+		r.Res.Evals++
+		if r.failed() || stuck || r.Res.Harness != "" {
+			return
+		}
+		if len(outs) != len(docs) {
+			r.violate("M-term", "incomplete", fmt.Sprintf("only %d of %d calls returned", len(outs), len(docs)))
+			return
+		}
+		for i := range outs {
+			outs[i].pj = nil
+		}
+		if k == 0 {
+			first = outs
+			continue
+		}
+		if !compareOutcomes(r, first, outs, refs, cfgs, "policy "+polNames[kind], "the first explored schedule") {
+			return
+		}
+	}
+	// free-running execution (real scheduler, no hook parks): same outcome expected. It runs last, after the
+	// controlled schedules have shown that the stages terminate; the sync path is guarded by the full/empty channel tap.
 	var free []parseOutcome
 	{
 		var prev *simdjson.ParsedJson
 		for i, d := range docs {
 			var o parseOutcome
+			hookTap = syncDeadlockTap()
 			err := safely(func() error {
 				var ru *simdjson.ParsedJson
 				if reuse {
@@ -657,12 +708,15 @@ func RunPipe(r *Run) {
 				o = outcomeOf(pj, perr)
 				return nil
 			})
+			hookTap = nil
 			if wp, ok := err.(*WalkPanic); ok {
+				if ds, isDL := wp.Val.(deadlockSentinel); isDL {
+					r.violate("M-term", "deadlock-sync", fmt.Sprintf("free-running parse #%d (%s): %s", i, cfgs[i], ds.detail))
+					return
+				}
 				o.panicV = wp
 			}
-			judgeOutcome(r, d, cfgs[i], o, refs[i], fmt.Sprintf("free-running parse #%d (%s)", i, cfgs[i]), len(d) <= 1<<18)
 			if o.ok {
-				// the object is reused by the next parse: keep only digests
 				prev = o.pj
 			}
 			o.pj = nil
@@ -670,58 +724,34 @@ func RunPipe(r *Run) {
 			r.Res.Evals++
 		}
 	}
-	if r.failed() {
-		r.Res.NonTrivial = true
-		return
-	}
-	async := false
-	for _, d := range docs {
-		if len(bytes.TrimSpace(d)) > 8<<10 {
-			async = true
+	compareOutcomes(r, first, free, refs, cfgs, "the free-running execution", "the first explored schedule")
+}
+
+// compareOutcomes checks that two executions of the same calls had the same outcome.
+func compareOutcomes(r *Run, a, b []parseOutcome, refs []RefResult, cfgs []parseCfg, whatB, whatA string) bool {
+	for i := range b {
+		o, f := b[i], a[i]
+		what := fmt.Sprintf("parse #%d (%s) in %s", i, cfgs[i], whatB)
+		if o.panicV != nil {
+			r.violate("panic", panicSig(o.panicV), fmt.Sprintf("%s: %v", what, o.panicV))
+			return false
+		}
+		if refs[i].Ambiguous {
+			continue
+		}
+		if o.ok != f.ok {
+			r.violate("schedule-dependent", "outcome", fmt.Sprintf("%s: ok=%v (%s) but in %s ok=%v (%s)", what, o.ok, o.errText, whatA, f.ok, f.errText))
+			return false
+		}
+		if o.ok && (o.tapeH != f.tapeH || o.strH != f.strH || o.tapeLen != f.tapeLen) {
+			r.violate("schedule-dependent", "tape", fmt.Sprintf("%s: tape/strings differ from %s (tape len %d vs %d)", what, whatA, o.tapeLen, f.tapeLen))
+			return false
+		}
+		if o.errText != f.errText {
+			r.stat("error_text_varies", 1)
 		}
 	}
-	r.Res.NonTrivial = async
-	for k := 0; k < K; k++ {
-		kind := c.Intn("policy", polCount)
-		pol := newPipePolicy(c, kind, len(doc)/300+8)
-		r.stat("policy_"+polNames[kind], 1)
-		r.trace("schedule %d policy %s", k, polNames[kind])
-		outs, stuck := pipeExec(r, docs, cfgs, reuse, pol, polNames[kind])
-		r.Res.Evals++
-		if r.failed() || stuck || r.Res.Harness != "" {
-			return
-		}
-		if len(outs) != len(docs) {
-			r.violate("M-term", "incomplete", fmt.Sprintf("only %d of %d calls returned", len(outs), len(docs)))
-			return
-		}
-		for i, o := range outs {
-			what := fmt.Sprintf("parse #%d (%s) under policy %s", i, cfgs[i], polNames[kind])
-			if o.panicV != nil {
-				r.violate("panic", panicSig(o.panicV), fmt.Sprintf("%s: %v", what, o.panicV))
-				return
-			}
-			if refs[i].Ambiguous {
-				continue
-			}
-			f := free[i]
-			if o.ok != f.ok {
-				r.violate("schedule-dependent", "outcome", fmt.Sprintf("%s: ok=%v (%s) but free-running ok=%v (%s)", what, o.ok, o.errText, f.ok, f.errText))
-				return
-			}
-			if o.ok && (o.tapeH != f.tapeH || o.strH != f.strH || o.tapeLen != f.tapeLen) {
-				// find out what differs w.r.t. the model
-				judgeOutcome(r, docs[i], cfgs[i], o, refs[i], what, true)
-				if !r.failed() {
-					r.violate("schedule-dependent", "tape", fmt.Sprintf("%s: tape/strings differ from the free-running execution (tape len %d vs %d)", what, o.tapeLen, f.tapeLen))
-				}
-				return
-			}
-			if o.errText != f.errText {
-				r.stat("error_text_varies", 1)
-			}
-		}
-	}
+	return true
 }
 
 func b64(b []byte) string {
